@@ -445,6 +445,65 @@ func Gen(prop string) func(r *core.Rand, tier string) core.Schedule {
 			nSteps = 14
 		}
 		var steps []Step
+		bulkP := 0.0
+		switch prop {
+		case "C09":
+			bulkP = 0.012
+			if tier == "thorough" {
+				bulkP = 0.04
+			}
+		case "C01", "C02":
+			// range deletes / transactions over more data than fits one transport message
+			bulkP = 0.008
+			if tier == "thorough" {
+				bulkP = 0.02
+			}
+		}
+		if r.Chance(bulkP) {
+			// many small or mid-sized pairs adding up to more than one transport message
+			vs := []int{900, 8189, 65000, 200}[r.Intn(4)]
+			per := vs + 12
+			if vs == 200 {
+				per = 1000 + 200 // long keys
+			}
+			n := (4*1024*1024+300*1024)/per + r.Range(1, 40)
+			pfx := "bulk/"
+			if vs == 200 {
+				pfx = string(bytes.Repeat([]byte{'q'}, 990)) + "/"
+			}
+			st := Step{Op: "append", Cmds: []Cmd{{T: "bulk", BulkN: n, BulkV: vs, BulkP: pfx}}}
+			g.gm.Apply(cfg.command(&st.Cmds[0]))
+			g.logN++
+			steps = append(steps, st)
+			g.applyStep(&steps, 0, g.logN-g.pos[0])
+			// stream everything, and a keys-only / count-only variant
+			for i, variant := range []OpSpec{{T: "range", K: KWild, E: KWild}, {T: "range", K: KWild, E: KWild, KeysOnly: true}, {T: "range", K: KWild, E: KWild, CountOnly: true}} {
+				if i > 0 && r.Chance(0.5) {
+					continue
+				}
+				v := variant
+				slot := g.nextSlot
+				g.nextSlot++
+				steps = append(steps, Step{Op: "iteropen", R: 0, Slot: slot, Req: &v})
+				steps = append(steps, Step{Op: "iterpull", Slot: slot})
+				steps = append(steps, Step{Op: "read", R: 0, Req: &v})
+			}
+			if prop != "C09" {
+				// a range delete with prev_kv/count over (part of) the bulk, directly or inside a transaction
+				del := Cmd{T: "del", K: KWild, E: KWild, Prev: r.Chance(0.7), Count: r.Chance(0.6)}
+				if r.Chance(0.4) {
+					del = Cmd{T: "txn", Txn: &TxnSpec{Succ: []OpSpec{{T: "del", K: KWild, E: KWild, Prev: true, Count: r.Chance(0.5)}}}}
+				}
+				st := Step{Op: "append", Cmds: []Cmd{del}}
+				g.gm.Apply(cfg.command(&st.Cmds[0]))
+				g.logN++
+				steps = append(steps, st)
+				g.applyStep(&steps, 0, g.logN-g.pos[0])
+			}
+			if nSteps > 12 {
+				nSteps = 12
+			}
+		}
 		if p.rangeHeavy || r.Chance(0.3) {
 			// preload so that ranges have something to return
 			g.appendStep(&steps, r.Range(2, 8))
